@@ -19,7 +19,7 @@ impl Prop for C07 {
         "C07"
     }
     fn rule_text(&self) -> String {
-        "case = (config with all time-dependent features; physically consistent history with gaps up to 70 000 ms incl. boundary gaps around every timeout, 10 000 / 65 536 ms gaps, TCP-style virtual key ops, repeats, clock jumps). Each case is executed twice from scratch, sequentially: ticking and blocking. non-trivial = the blocking run actually skipped idle time (idle block taken) and produced output; distinct = distinct output trace signature.".into()
+        "case = (config with all time-dependent features; physically consistent history with gaps up to 70 000 ms incl. boundary gaps around every timeout, 10 000 / 65 536 ms gaps, TCP-style virtual key ops, repeats, clock jumps). Each case is executed twice from scratch, sequentially: ticking and blocking. Part 3 (late loop): every third case without on-idle / dynamic macros is run again in blocking mode with 2 / 5 / 40 ms per loop iteration (tick_ms(n)) and must give the same outputs at the same ticks. non-trivial = the blocking run actually skipped idle time (idle block taken) and produced output; distinct = distinct output trace signature.".into()
     }
     fn runs(&self, tier: Tier) -> u64 {
         match tier {
